@@ -61,3 +61,27 @@ Proof.
   - constructor; [intros [E|[]]; discriminate|]. constructor; [intros []|constructor].
   - repeat constructor; lia.
 Qed.
+
+(* ---------- tie to the source text (Anchors/Generated.v is printed from modbus/*.go on every run) ----------
+   The quantity limits, the address space, the exception codes and the table of minimum request lengths the
+   theorems above speak about are the ones modbus/modbus.go declares, and the request handlers of the model
+   answer under the function codes it declares. *)
+From Coq Require Import ZArith.
+From Verif Require Import Anchors.Generated Anchors.TieModbus.
+
+Theorem C18_limits_from_source :
+  go_modbus_maxReadBits = Z.of_N maxReadBits /\ go_modbus_maxReadRegs = Z.of_N maxReadRegs /\
+  go_modbus_maxWriteBits = Z.of_N maxWriteBits /\ go_modbus_maxWriteRegs = Z.of_N maxWriteRegs /\
+  go_modbus_maxAddress = Z.of_N maxAddress /\
+  go_modbus_ExcIllegalFunction = Z.of_N ExcIllegalFunction /\ go_modbus_ExcIllegalAddress = Z.of_N ExcIllegalAddress /\
+  go_modbus_ExcIllegalValue = Z.of_N ExcIllegalValue.
+Proof.
+  exact (conj tie_maxReadBits (conj tie_maxReadRegs (conj tie_maxWriteBits (conj tie_maxWriteRegs (conj tie_maxAddress
+         (conj tie_exc_function (conj tie_exc_address tie_exc_value))))))).
+Qed.
+Print Assumptions C18_limits_from_source.
+
+Theorem C18_min_request_len_from_source : forall fc : N, fc < 256 ->
+  Z.of_N (min_request_len fc) = map_lookup go_modbus_minRequestLen (Z.of_N fc).
+Proof. exact tie_minRequestLen. Qed.
+Print Assumptions C18_min_request_len_from_source.
